@@ -2,46 +2,6 @@
 use std::sync::Arc;
 use std::collections::HashMap;
 
-// ---- time: nanoseconds on an abstract clock
-#[verifier::external_body]
-#[derive(Clone, Copy)]
-pub struct Duration { n: u64 }
-#[verifier::external_body]
-#[derive(Clone, Copy)]
-pub struct Instant { n: u64 }
-impl Duration {
-  pub uninterp spec fn ns(&self) -> nat;
-  #[verifier::external_body]
-  pub fn from_millis(ms: u64) -> (r: Duration) ensures r.ns() == ms as nat * 1_000_000 { unimplemented!() }
-  #[verifier::external_body]
-  pub fn from_secs(s: u64) -> (r: Duration) ensures r.ns() == s as nat * 1_000_000_000 { unimplemented!() }
-  #[verifier::external_body]
-  pub fn as_millis(&self) -> (r: u128) ensures r as nat == self.ns() / 1_000_000 { unimplemented!() }
-}
-impl Instant {
-  pub uninterp spec fn ns(&self) -> nat;
-  // wall clock: any value (the engine must be correct for every reading)
-  #[verifier::external_body]
-  pub fn now() -> (r: Instant) { unimplemented!() }
-  // std: saturates to zero when `earlier` is later than self
-  #[verifier::external_body]
-  pub fn duration_since(&self, earlier: Instant) -> (r: Duration)
-    ensures r.ns() == (if self.ns() >= earlier.ns() { self.ns() - earlier.ns() } else { 0 })
-  { unimplemented!() }
-}
-impl vstd::std_specs::cmp::PartialEqSpecImpl for Duration {
-  open spec fn obeys_eq_spec() -> bool { true }
-  open spec fn eq_spec(&self, other: &Duration) -> bool { self.ns() == other.ns() }
-}
-impl PartialEq for Duration { #[verifier::external_body] fn eq(&self, other: &Duration) -> bool { unimplemented!() } }
-impl vstd::std_specs::cmp::PartialOrdSpecImpl for Duration {
-  open spec fn obeys_partial_cmp_spec() -> bool { true }
-  open spec fn partial_cmp_spec(&self, other: &Duration) -> Option<core::cmp::Ordering> {
-    if self.ns() < other.ns() { Some(core::cmp::Ordering::Less) } else if self.ns() == other.ns() { Some(core::cmp::Ordering::Equal) } else { Some(core::cmp::Ordering::Greater) }
-  }
-}
-impl PartialOrd for Duration { #[verifier::external_body] fn partial_cmp(&self, other: &Duration) -> Option<core::cmp::Ordering> { unimplemented!() } }
-
 // ---- Blob (message/blob.rs): immutable byte string
 #[verifier::external_body]
 pub struct Blob { b: Vec<u8> }
